@@ -62,6 +62,12 @@ def main(argv):
                     if warm:
                         seq.append(({"op": "set", "k": "a", "v": b"7", "nr": False}, {}))
                     seq.append((call, script))
+                    if "close_fault" in script:
+                        # an interruption inside close() must leave no lasting mark on the object: a LATER call that fails in the ordinary way
+                        # (reply not read in time) still has its connection closed, and the call after it reads nothing stale
+                        seq.append(({"op": "set", "k": "n", "v": b"5", "nr": False}, {}))
+                        seq.append(({"op": "incr", "k": "n", "d": 5, "nr": False}, {"recv_fault": (0, "timeout")}))
+                        seq.append(({"op": "incr", "k": "n", "d": 1, "nr": False}, {}))
                     for j in range(3 if ctx.thorough else 2):
                         seq.append((followups[(oi * 7 + si * 3 + j * 5) % len(followups)], {}))
                     # run with the pool observed after every call
